@@ -565,7 +565,7 @@ def run(tier, seed, R):
               "every SubsetState subclass (found by introspection) at top level and nested in and/not/many-way-or/depth-3 composites; (b) public mutators of "
               "every closed-form Roi class reached through state.roi, same nestings; (c) histories of length <= 2 (3 thorough) over {update_components (1 and 2 components, "
               "rejected update), update_values_from_data (same/new shape), move_to} x %d selections (leaves and composites), observing mask, sum statistic and histogram, "
-              "also from inside the change notification; (d) link histories of length 3 (4 thorough) over {add, remove, set_links, replace by a link with another function}. "
+              "also from inside the change notification; (d) link histories of length 3 (4 thorough) over {add, remove, set_links, replace by a link with another function}; (e) pixel-link histories (straight / swapped axes / none, changed link by link, in one set_links or inside a delayed update) observed through a slice selection on the other dataset; (f) composites nested under evaluated and / not / xor composites moved directly, 3 targets x 2 view sets. "
               "non-trivial = distinct history in which the mutation changes the expected answer")
     R.exhaustive = True
     setter_histories(R, tier)
